@@ -285,6 +285,24 @@ fn convert_case(ctx: &Ctx, st: &mut Stats, edges: &[(String, String)], undirecte
     let plan = super::common::plan_input(mode, &dir, "in.csv", csv.as_bytes());
     st.bump(&format!("convert_input_channel_{}", mode));
     let mut args = vec!["--convert".to_string(), plan.path_arg.clone().unwrap_or_default()];
+    // every other conversion also states the sizes VERTICES [EDGES] of a generation request (they
+    // have no meaning for a conversion; sizes that differ from the list's must not cut it short)
+    let positionals: Vec<String> = match (csv.len() * 7 + edges.len() + undirected as usize + colors.unwrap_or(0)) % 6 {
+        0 | 1 | 2 => vec![],
+        3 => vec![(edges.len() + 1).to_string()],
+        4 => vec![(edges.len() + 2).to_string(), (edges.len() / 2).to_string()],
+        _ => vec![(edges.len() + 2).to_string(), (edges.len() + 1 + csv.len() % 3).to_string()],
+    };
+    if !positionals.is_empty() {
+        st.bump("convert_with_generation_sizes");
+        if csv.len() % 2 == 0 {
+            args.extend(positionals.iter().cloned());
+        } else {
+            let mut a2 = positionals.clone();
+            a2.extend(args);
+            args = a2;
+        }
+    }
     if undirected {
         args.push("-u".into());
     }
@@ -322,9 +340,15 @@ fn convert_case(ctx: &Ctx, st: &mut Stats, edges: &[(String, String)], undirecte
     }
     let _ = std::fs::remove_dir_all(&dir);
     let case = || json!({"kind": "convert", "csv": csv, "undirected": undirected, "dot": dot, "colors": colors});
-    let desc = format!("random_graph_gen --convert <{:?}>{}{}{}", csv.replace('\n', ";"), if undirected { " -u" } else { "" }, if dot { " -d" } else { "" }, colors.map(|k| format!(" --colors {}", k)).unwrap_or_default());
+    let desc = format!("random_graph_gen --convert <{:?}>{}{}{}{}", csv.replace('\n', ";"), if undirected { " -u" } else { "" }, if dot { " -d" } else { "" }, colors.map(|k| format!(" --colors {}", k)).unwrap_or_default(), if positionals.is_empty() { String::new() } else { format!(" with sizes {}", positionals.join(" ")) });
     if out.timed_out {
         st.bump("watchdog(inconclusive case)");
+        return;
+    }
+    if !out.ok() && !positionals.is_empty() && out.code == Some(1) && !out.stderr_str().contains("panicked") && !out.stderr_str().trim().is_empty() {
+        // a REFUSAL of sizes next to --convert (message, non-zero exit) is not judged: the
+        // statement does not say that the combination must be accepted
+        st.bump("convert_with_generation_sizes_refused(not judged)");
         return;
     }
     if !out.ok() {
@@ -676,7 +700,7 @@ pub fn run(ctx: &Ctx) -> (Stats, Spec) {
         large_convert_case(ctx, &mut st, v, u, &format!("{}", k));
     }
     let spec = Spec {
-        rule: "all (V in 0..6, E in 0..max+2, -u, --dot, stdout or -o) requests and boundary edge counts for V in {11, 17, 40}, LARGE requests (V = 257 .. 1000 [quick] / .. 5000 [thorough]; sparse, dense, complete; -u and directed), feasible ones repeated 10 [quick] / 60 [thorough] times (every run is a fresh random sample; the number of distinct outputs seen is reported), --complete with and without an edge count, missing arguments; --convert (file to convert: a regular file — also one named `-` —, a named pipe or /dev/stdin; output to stdout, to another file, or IN PLACE onto the file being converted, directly or through a symbolic link) on every digraph with <= 3 vertices, random edge lists over 4-5 vertices, and (under -u) ordered pairs of distinct edges over five names of every family (a third of them [quick] / all [thorough]) (shuffled rows; exact duplicates and self-loops without -u; reversed pairs under -u), --colors 0..3 on every loop-free graph with 2..4 (thorough: sampled 5) vertices, with seven vertex-name families (names that collide under joining with '-', '_' or '.'; plain; one name a prefix of another: v1 / v10 / v1X, 1 / 10 / 100; names containing the colour suffix pattern), --colors on generated complete graphs with 11-12 vertices, and --convert (with and without -u) on edge lists with 66 000 - 140 000 distinct vertex names. distinct = (request, output); non-trivial = 0 < E < max resp. non-empty input.".into(),
+        rule: "all (V in 0..6, E in 0..max+2, -u, --dot, stdout or -o) requests and boundary edge counts for V in {11, 17, 40}, LARGE requests (V = 257 .. 1000 [quick] / .. 5000 [thorough]; sparse, dense, complete; -u and directed), feasible ones repeated 10 [quick] / 60 [thorough] times (every run is a fresh random sample; the number of distinct outputs seen is reported), --complete with and without an edge count, missing arguments; --convert (every other time with the VERTICES [EDGES] sizes of a generation request next to it — smaller and larger than the list; file to convert: a regular file — also one named `-` —, a named pipe or /dev/stdin; output to stdout, to another file, or IN PLACE onto the file being converted, directly or through a symbolic link) on every digraph with <= 3 vertices, random edge lists over 4-5 vertices, and (under -u) ordered pairs of distinct edges over five names of every family (a third of them [quick] / all [thorough]) (shuffled rows; exact duplicates and self-loops without -u; reversed pairs under -u), --colors 0..3 on every loop-free graph with 2..4 (thorough: sampled 5) vertices, with seven vertex-name families (names that collide under joining with '-', '_' or '.'; plain; one name a prefix of another: v1 / v10 / v1X, 1 / 10 / 100; names containing the colour suffix pattern), --colors on generated complete graphs with 11-12 vertices, and --convert (with and without -u) on edge lists with 66 000 - 140 000 distinct vertex names. distinct = (request, output); non-trivial = 0 < E < max resp. non-empty input.".into(),
         assumptions: vec![
             "uniformity of the random sample is not claimed by the property and not tested".into(),
             "self-loops are not given to --convert -u / --colors, exact duplicates not to --convert -u (their treatment is a convention the statement does not fix); --colors inputs may state an edge twice (the same graph)".into(),
@@ -686,6 +710,7 @@ pub fn run(ctx: &Ctx) -> (Stats, Spec) {
             ("infeasible_or_incomplete_requests".into(), 50, "infeasible requests hardly exercised".into()),
             ("complete_requests".into(), 20, "--complete hardly exercised".into()),
             ("convert_checked".into(), 100, "--convert hardly exercised".into()),
+            ("convert_with_generation_sizes".into(), 50, "--convert next to VERTICES / EDGES never exercised".into()),
             ("colourable_inputs".into(), 50, "--colors hardly exercised".into()),
             ("non_colourable_inputs".into(), 50, "--colors hardly exercised on non-colourable inputs".into()),
             ("distinct_outputs".into(), 500, "too few distinct outputs".into()),
